@@ -30,9 +30,9 @@ def lastSome (p : α → Bool) : List α → Option α
 /-- AVPs of one application, up to and including the first whose type name is not available -/
 def logAvps (available : List (Nat × Nat)) (app : Nat) : List AvpRow → Log → Log × Bool
   | [], l => (l, true)
-  | (name, code, vendor, must, tyName) :: r, l =>
+  | (name, code, vendor, must, tyName, items) :: r, l =>
     let known := (available.find? (fun p => p.1 = tyName)).map (·.2)
-    let d : AvpDef := { name, code, vendor, must, tyName, ty := known.getD 0, app }
+    let d : AvpDef := { name, code, vendor, must, tyName, items, ty := known.getD 0, app }
     let l := { l with avps := l.avps ++ [d] }
     if known.isNone then (l, false) else logAvps available app r l
 
